@@ -57,6 +57,16 @@ Section Assoc.
     now apply lookup_remove_neq.
   Qed.
 
+  Lemma lookup_filter_notin k (f : str * V -> bool) m :
+    ~ In k (map fst m) -> lookup k (filter f m) = None.
+  Proof.
+    induction m as [|[k0 v0] m IH]; intro Hn; [reflexivity|]. cbn [filter].
+    cbn [map fst In] in Hn.
+    destruct (f (k0, v0)).
+    - rewrite lookup_cons. rewrite (str_eqb_neq k0 k) by tauto. apply IH. tauto.
+    - apply IH. tauto.
+  Qed.
+
   Lemma lookup_insert_eq k v m : lookup k (insert k v m) = Some v.
   Proof. unfold insert. now rewrite lookup_cons, str_eqb_refl. Qed.
 
@@ -1060,30 +1070,28 @@ Section Refine.
     unfold referrers_from_index. rewrite E. eauto.
   Qed.
 
-  Theorem tag_schema_add_then_listed g n rst subj old r :
+  (* the general step: whatever the change, if applyReferrerChanges yields [upd] the tag schema
+     afterwards lists [upd] *)
+  Lemma tag_schema_update g n rst subj old ch upd :
     inv g -> rst_ok rst ->
     valid_digest (d_dg subj) = true ->
     let tag := ref_tag (d_dg subj) in
     resolve_ref main tag = Some tag -> valid_digest tag = false ->
     (p_clen p = true \/ p_dighdr p = true) ->
-    index_state g tag old ->
-    let l := match old with Some (_, l) => l | None => [] end in
-    let upd := clean_refs [] l ++ [r] in
-    existsb (desc_eqb r) (clean_refs [] l) = false ->
+    index_state g tag old -> NoDup (map fst (g_tags g)) ->
+    apply_change (match old with Some (_, l) => l | None => [] end) (Some ch) = Some upd ->
     len (gen_index upd) <= limit ->
     (skip_gc = true \/ forall od l0, old = Some (od, l0) -> od <> H (gen_index upd)) ->
     exists g' n' t,
-      update_referrers_index H parse_mt main user_mts limit skip_gc index_of S ex0 (g, n) rst subj (RAdd r)
+      update_referrers_index H parse_mt main user_mts limit skip_gc index_of S ex0 (g, n) rst subj ch
       = ((g', n'), rst, t, ROk) /\
       inv g' /\
-      index_state g' tag (Some (H (gen_index upd), upd)) /\
       exists n'' t', tag_schema_referrers H parse_mt main user_mts limit index_of S ex0 (g', n') subj
                      = ((g', n''), t', RDescs (clean_refs [] upd)).
   Proof.
-    intros Hi Hr Vs tag ER Vt Hp Hst l upd Hnew Hlim Hcol.
+    intros Hi Hr Vs tag ER Vt Hp Hst Huniq Hch Hlim Hcol.
     set (j := gen_index upd).
     assert (Vtag : valid_ref tag = true) by (eapply resolve_ref_valid; eauto).
-    (* 1. read the old index *)
     assert (Hrfi : exists n1 t1 res1 o1,
                referrers_from_index H parse_mt main user_mts limit index_of S ex0 (g, n) tag = ((g, n1), t1, res1, o1) /\
                match old with
@@ -1094,7 +1102,6 @@ Section Refine.
       - destruct (rfi_on_index g n tag od l0 Hi ER Vt Hst Hp) as (n1 & t1 & E). eauto 10.
       - destruct (rfi_no_index g n tag ER Vt Hst) as (t1 & E). eauto 10. }
     destruct Hrfi as (n1 & t1 & res1 & o1 & E1 & Hold).
-    (* 2. write the new index under the tag *)
     assert (Sj : sub_ok j) by (left; apply Hidx_subj).
     destruct (man_put_exec g n1 rst (mkDesc mt_index (H j) (len j)) j true tag Vtag eq_refl eq_refl Sj Hr (Hvalid j))
       as (g2 & n2 & t2 & E2 & St2).
@@ -1103,51 +1110,126 @@ Section Refine.
     { cbn [rst_of]. unfold rst_after, j. now rewrite Hidx_subj. }
     rewrite Hrst in E2.
     assert (Hi2 : inv g2).
-    { unfold inv. rewrite St2. apply sinv_insert_man; auto. }
+    { unfold RemoteSpec.inv. rewrite St2. apply sinv_insert_man; auto. }
     assert (Lm2 : lookup (H j) (g_mans g2) = Some (mt_index, j)).
     { change (g_mans g2) with (t_mans (store_of g2)). rewrite St2. cbn [t_mans]. apply lookup_insert_eq. }
     assert (Lt2 : lookup tag (g_tags g2) = Some (H j)).
     { change (g_tags g2) with (t_tags (store_of g2)). rewrite St2. cbn [t_tags]. apply lookup_insert_eq. }
+    (* reading the tag schema in a state whose tag points to the new index *)
+    assert (Read : forall g' n', inv g' -> lookup tag (g_tags g') = Some (H j) -> lookup (H j) (g_mans g') = Some (mt_index, j) ->
+              exists n'' t', tag_schema_referrers H parse_mt main user_mts limit index_of S ex0 (g', n') subj
+                             = ((g', n''), t', RDescs (clean_refs [] upd))).
+    { intros g' n' Hi' Lt' Lm'.
+      destruct (rfi_on_index g' n' tag (H j) upd Hi' ER Vt (conj Lt' Lm') Hp) as (n3 & t3 & E3).
+      unfold tag_schema_referrers. rewrite Vs. cbn [negb]. fold tag. rewrite E3. eauto. }
+    (* ... and in a state where the tag is gone *)
+    assert (ReadNone : forall g' n', lookup tag (g_tags g') = None -> upd = [] ->
+              exists n'' t', tag_schema_referrers H parse_mt main user_mts limit index_of S ex0 (g', n') subj
+                             = ((g', n''), t', RDescs (clean_refs [] upd))).
+    { intros g' n' Lt' ->.
+      destruct (rfi_no_index g' n' tag ER Vt Lt') as (t3 & E3).
+      unfold tag_schema_referrers. rewrite Vs. cbn [negb]. fold tag. rewrite E3. eauto. }
     unfold update_referrers_index. rewrite Vs. cbn [negb]. fold tag. rewrite E1.
     destruct old as [[od l0]|].
-    - (* an old index *)
-      destruct Hold as [-> ->]. destruct Hst as [Lt Lm]. subst l. cbn beta iota in *.
-      unfold apply_change. rewrite Hnew. fold upd. fold j.
-      assert (Enil : negb (is_nil upd) = true) by (unfold upd; destruct (clean_refs [] l0); reflexivity).
-      rewrite Enil. cbn [orb]. rewrite E2.
-      destruct skip_gc eqn:Eg.
-      + exists g2, n2, (t1 ++ t2). split; [reflexivity|]. split; [exact Hi2|]. split; [split; assumption|].
-        destruct (rfi_on_index g2 n2 tag (H j) upd Hi2 ER Vt (conj Lt2 Lm2) Hp) as (n3 & t3 & E3).
-        unfold tag_schema_referrers. rewrite Vs. cbn [negb]. fold tag. rewrite E3. eauto.
-      + destruct Hcol as [X|Hcol]; [discriminate|]. specialize (Hcol od l0 eq_refl).
-        assert (Lod : lookup od (g_mans g2) = Some (mt_index, gen_index l0)).
-        { change (g_mans g2) with (t_mans (store_of g2)). rewrite St2. cbn [t_mans].
-          rewrite lookup_insert_neq by exact Hcol. exact Lm. }
-        pose proof Hi as [I _]. destruct (I _ _ _ Lm) as (Hod & _).
-        destruct (delete_man_hit g2 n2 (mkDesc mt_index od (len (gen_index l0))) _ Lod
+    - destruct Hold as [-> ->]. destruct Hst as [Lt Lm]. rewrite Hch. fold j.
+      pose proof Hi as [I _]. destruct (I _ _ _ Lm) as (Hod & _).
+      destruct (negb (is_nil upd) || skip_gc) eqn:Epush.
+      + rewrite E2. destruct skip_gc eqn:Eg.
+        * exists g2, n2, (t1 ++ t2). split; [reflexivity|]. split; [exact Hi2|]. now apply Read.
+        * destruct Hcol as [X|Hcol]; [discriminate|]. specialize (Hcol od l0 eq_refl).
+          assert (Lod : lookup od (g_mans g2) = Some (mt_index, gen_index l0)).
+          { change (g_mans g2) with (t_mans (store_of g2)). rewrite St2. cbn [t_mans].
+            rewrite lookup_insert_neq by exact Hcol. exact Lm. }
+          destruct (delete_man_hit g2 n2 (mkDesc mt_index od (len (gen_index l0))) _ Lod
+                      ltac:(cbn [d_dg]; rewrite Hod; apply Hvalid)) as (g3 & t3 & E3 & St3).
+          cbn [d_dg] in E3, St3. rewrite E3.
+          assert (Hi3 : inv g3).
+          { unfold RemoteSpec.inv. rewrite St3. destruct Hi2 as [I2 Io2]. split; cbn [t_mans t_other]; [|exact Io2].
+            intros d' mt' c' L. apply lookup_remove_inv in L as [L _]. eauto. }
+          assert (Lm3 : lookup (H j) (g_mans g3) = Some (mt_index, j)).
+          { change (g_mans g3) with (t_mans (store_of g3)). rewrite St3. cbn [t_mans].
+            rewrite lookup_remove_neq by (intro X; apply Hcol; now symmetry). exact Lm2. }
+          assert (Lt3 : lookup tag (g_tags g3) = Some (H j)).
+          { change (g_tags g3) with (t_tags (store_of g3)). rewrite St3. cbn [t_tags].
+            change (g_tags g2) with (t_tags (store_of g2)). rewrite St2. cbn [t_tags]. unfold insert. cbn [filter snd].
+            rewrite (str_eqb_neq (H j) od) by (intro X; apply Hcol; now symmetry). cbn [negb].
+            rewrite lookup_cons. now rewrite str_eqb_refl. }
+          exists g3, (n2 + 1), (t1 ++ t2 ++ t3). split; [reflexivity|]. split; [exact Hi3|]. now apply Read.
+      + (* nothing left and the old index is garbage-collected: only the delete *)
+        apply orb_false_iff in Epush as [En Eg]. rewrite Eg. apply negb_false_iff in En.
+        assert (upd = []) as Eu by (destruct upd; [reflexivity|discriminate]).
+        destruct (delete_man_hit g n1 (mkDesc mt_index od (len (gen_index l0))) _ Lm
                     ltac:(cbn [d_dg]; rewrite Hod; apply Hvalid)) as (g3 & t3 & E3 & St3).
         cbn [d_dg] in E3, St3. rewrite E3.
         assert (Hi3 : inv g3).
-        { unfold inv. rewrite St3. destruct Hi2 as [I2 Io2]. split; cbn [t_mans t_other]; [|exact Io2].
+        { unfold RemoteSpec.inv. rewrite St3. destruct Hi as [I0 Io0]. split; cbn [t_mans t_other]; [|exact Io0].
           intros d' mt' c' L. apply lookup_remove_inv in L as [L _]. eauto. }
-        assert (Lm3 : lookup (H j) (g_mans g3) = Some (mt_index, j)).
-        { change (g_mans g3) with (t_mans (store_of g3)). rewrite St3. cbn [t_mans].
-          rewrite lookup_remove_neq by (intro X; apply Hcol; now symmetry). exact Lm2. }
-        assert (Lt3 : lookup tag (g_tags g3) = Some (H j)).
+        assert (Lt3 : lookup tag (g_tags g3) = None).
         { change (g_tags g3) with (t_tags (store_of g3)). rewrite St3. cbn [t_tags].
-          change (g_tags g2) with (t_tags (store_of g2)). rewrite St2. cbn [t_tags]. unfold insert. cbn [filter snd].
-          rewrite (str_eqb_neq (H j) od) by (intro X; apply Hcol; now symmetry). cbn [negb].
-          rewrite lookup_cons. now rewrite str_eqb_refl. }
-        exists g3, (n2 + 1), (t1 ++ t2 ++ t3). split; [reflexivity|]. split; [exact Hi3|]. split; [split; assumption|].
-        destruct (rfi_on_index g3 (n2 + 1) tag (H j) upd Hi3 ER Vt (conj Lt3 Lm3) Hp) as (n4 & t4 & E4).
-        unfold tag_schema_referrers. rewrite Vs. cbn [negb]. fold tag. rewrite E4. eauto.
-    - (* no index yet *)
-      destruct Hold as [-> ->]. subst l. cbn beta iota in *.
-      unfold apply_change. cbn [clean_refs existsb app length Nat.eqb negb].
-      change (gen_index [r]) with j. cbn [is_nil negb orb]. rewrite E2.
-      exists g2, n2, (t1 ++ t2). split; [reflexivity|]. split; [exact Hi2|]. split; [split; assumption|].
-      destruct (rfi_on_index g2 n2 tag (H j) upd Hi2 ER Vt (conj Lt2 Lm2) Hp) as (n3 & t3 & E3).
-      unfold tag_schema_referrers. rewrite Vs. cbn [negb]. fold tag. rewrite E3. eauto.
+          clear - Lt Huniq. induction (g_tags g) as [|[k v] m IH]; [reflexivity|].
+          rewrite lookup_cons in Lt. cbn [map fst] in Huniq. inversion Huniq as [|? ? Hk Hm]; subst. cbn [filter snd].
+          destruct (str_eqb k tag) eqn:Ek.
+          - injection Lt as ->. rewrite str_eqb_refl. cbn [negb].
+            apply str_eqb_spec in Ek. subst k. now apply lookup_filter_notin.
+          - destruct (negb (str_eqb v od)); [rewrite lookup_cons, Ek|]; auto. }
+        exists g3, (n1 + 1), (t1 ++ [] ++ t3). split; [reflexivity|]. split; [exact Hi3|]. now apply ReadNone.
+    - destruct Hold as [-> ->]. rewrite Hch. fold j.
+      destruct (negb (is_nil upd) || skip_gc) eqn:Epush.
+      + rewrite E2. exists g2, n2, (t1 ++ t2). split; [reflexivity|]. split; [exact Hi2|]. now apply Read.
+      + apply orb_false_iff in Epush as [En Eg]. apply negb_false_iff in En.
+        assert (upd = []) as Eu by (destruct upd; [reflexivity|discriminate]).
+        exists g, n1, (t1 ++ []). split; [reflexivity|]. split; [exact Hi|]. now apply ReadNone.
+  Qed.
+
+  (* Push of a manifest with subject [subj]: referrer r is added *)
+  Theorem tag_schema_add_then_listed g n rst subj old r :
+    inv g -> rst_ok rst ->
+    valid_digest (d_dg subj) = true ->
+    let tag := ref_tag (d_dg subj) in
+    resolve_ref main tag = Some tag -> valid_digest tag = false ->
+    (p_clen p = true \/ p_dighdr p = true) ->
+    index_state g tag old -> NoDup (map fst (g_tags g)) ->
+    let l := match old with Some (_, l) => l | None => [] end in
+    let upd := clean_refs [] l ++ [r] in
+    existsb (desc_eqb r) (clean_refs [] l) = false ->
+    len (gen_index upd) <= limit ->
+    (skip_gc = true \/ forall od l0, old = Some (od, l0) -> od <> H (gen_index upd)) ->
+    exists g' n' t,
+      update_referrers_index H parse_mt main user_mts limit skip_gc index_of S ex0 (g, n) rst subj (RAdd r)
+      = ((g', n'), rst, t, ROk) /\
+      inv g' /\
+      exists n'' t', tag_schema_referrers H parse_mt main user_mts limit index_of S ex0 (g', n') subj
+                     = ((g', n''), t', RDescs (clean_refs [] upd)).
+  Proof.
+    intros Hi Hr Vs tag ER Vt Hp Hst Hu l upd Hnew Hlim Hcol.
+    apply (tag_schema_update g n rst subj old (RAdd r) upd); auto.
+    fold l. unfold apply_change. now rewrite Hnew.
+  Qed.
+
+  (* Delete of a manifest with subject [subj]: referrer r is removed; when nothing is left the
+     index and the tag go away (unless SkipReferrersGC keeps an empty index) *)
+  Theorem tag_schema_remove_then_absent g n rst subj od l r :
+    inv g -> rst_ok rst ->
+    valid_digest (d_dg subj) = true ->
+    let tag := ref_tag (d_dg subj) in
+    resolve_ref main tag = Some tag -> valid_digest tag = false ->
+    (p_clen p = true \/ p_dighdr p = true) ->
+    index_state g tag (Some (od, l)) -> NoDup (map fst (g_tags g)) ->
+    let upd := filter (fun x => negb (desc_eqb r x)) (clean_refs [] l) in
+    existsb (desc_eqb r) (clean_refs [] l) = true ->
+    len (gen_index upd) <= limit ->
+    (skip_gc = true \/ od <> H (gen_index upd)) ->
+    exists g' n' t,
+      update_referrers_index H parse_mt main user_mts limit skip_gc index_of S ex0 (g, n) rst subj (RRemove r)
+      = ((g', n'), rst, t, ROk) /\
+      inv g' /\
+      exists n'' t', tag_schema_referrers H parse_mt main user_mts limit index_of S ex0 (g', n') subj
+                     = ((g', n''), t', RDescs (clean_refs [] upd)).
+  Proof.
+    intros Hi Hr Vs tag ER Vt Hp Hst Hu upd Hin Hlim Hcol.
+    apply (tag_schema_update g n rst subj (Some (od, l)) (RRemove r) upd); auto.
+    - unfold apply_change. now rewrite Hin.
+    - destruct Hcol as [X|X]; [now left|right]. intros od' l' Y. injection Y as <- <-. exact X.
   Qed.
 
   (* ---------- the digest-header hypothesis is exactly the failing mechanism ---------- *)
